@@ -131,7 +131,17 @@ def judge_c02(ctx, idx, op, impl, mi, ms, reason):
 def judge_c03(ctx, idx, op, impl, mi, ms, reason):
     if op[0] == "tables":
         ctx.count("tables")
-        return same(ctx, idx, op, impl, mi, "cmdKnown / appKnown <-> CommandCode::from_u32 / ApplicationId::from_u32 (tables enumerated over the 24-bit space)")
+        f = same(ctx, idx, op, impl, mi, "Tables (probed) <-> CommandCode::from_u32 / ApplicationId::from_u32 (second enumeration over the whole 24-bit / 32-bit space)")
+        # the tables are a parameter of the model and may grow; what the pinned commit knew must still be known (the
+        # generators build their messages from these codes)
+        got = dict(t.split("=", 1) for t in impl.split(" ") if "=" in t)
+        pinned = {"cmds": [0, 257, 258, 265, 271, 272, 274, 275, 280, 282, 8388635, 8388636], "apps": [0, 3, 4, 16777236, 16777238, 16777302]}
+        for k, want in pinned.items():
+            have = set(int(x) for x in got.get(k, "").split(",") if x)
+            gone = [x for x in want if x not in have]
+            if gone:
+                f.append(Finding("correspondence", idx, "the library no longer knows %s %s of the pinned commit: the generators' messages cannot be built" % (k, gone), expected=",".join(map(str, want)), observed=got.get(k, ""), name="Tables (probed) contain the tables of the pinned commit"))
+        return f
     if op[0] in ("deca", "decg"):
         ctx.count(op[0] + "_" + impl.split(" ")[0])
         return same(ctx, idx, op, impl, mi, "Impl.decAvp / decGroup <-> Avp::decode_from / Grouped::decode_from (public entry points, cursor position)")
